@@ -253,7 +253,7 @@ def C03_full : SessionData :=
   { C03_ex with outbound := { C03_ex.outbound with
       release := List.replicate 8 { id := 9, rc := 0, state := .sent } } }
 
-/-- **Why the capacity hypothesis is needed** (known finding F6): with the release queue full, a
+/-- **Why the capacity hypothesis is needed** (a model-level statement: the state is excluded for reachable worlds by `C06_quota_books_balance` unless the F5c flag is set): with the release queue full, a
 successful PUBREC removes the PUBLISH and fails with `InflightExhausted`; no PUBREL for identifier 5
 exists or will ever be sent, and the operation handle reports `complete`. Ruled out in reachable
 states only by the send-quota invariant (C06). -/
